@@ -544,7 +544,6 @@ func keysIntB(m map[int]bool) []int {
 
 var _ = regexp.MustCompile
 
-
 // onlyStoredAsValue: the value flows (through arithmetic/conversions) only into the value operand of stores.
 func onlyStoredAsValue(v ssa.Value, depth int) bool {
 	refs := v.Referrers()
@@ -573,68 +572,67 @@ func onlyStoredAsValue(v ssa.Value, depth int) bool {
 	return true
 }
 
-
 // vmMemoryOperandRule is shared by C07-R7 (no crash / memory paid for) and C08-R9 (operand access defined by the
 // specification for all operand values incl. >= 2^64).
 func vmMemoryOperandRule(c *Ctx, rule string, tabs *vmTables) {
-		seen := map[string]bool{}
-		n := 0
-		for _, set := range tabs.order {
-			for op, e := range tabs.own[set] {
-				id := fmt.Sprint(e.execName, e.execArgs, e.memName)
-				if seen[id] {
-					continue
-				}
-				seen[id] = true
-				fn, _, _ := c.resolveVMFunc(e.execName, e.execArgs)
-				if fn == nil {
-					continue
-				}
-				used := c07UnguardedPositions(c, fn)
-				sized := map[int]bool{}
-				if e.memName != "" {
-					if mf := c.FnOpt("core/vm:" + e.memName); mf != nil {
-						sized = c07BackPositions(mf)
-					}
-				}
-				var bad []string
-				for pos, where := range used {
-					if !sized[pos] {
-						bad = append(bad, fmt.Sprintf("stack[%d] (%s)", pos, where))
-					}
-				}
-				sort.Strings(bad)
-				if len(used) > 0 || e.memName != "" {
-					n++
-					c.Ob(rule, fmt.Sprintf("%s%v / %s (%s)", e.execName, e.execArgs, e.memName, op), c.Position(e.pos), len(bad) == 0,
-						fmt.Sprintf("unguarded conversions at stack positions %v; memorySize covers %v; uncovered: %v", keysInt(used), keysIntB(sized), bad))
-				}
-				// memorySize present iff the execute function addresses memory by offset
-				touches := c07TouchesMemory(fn)
-				c.Ob(rule, fmt.Sprintf("%s%v has memorySize iff it addresses memory (%s)", e.execName, e.execArgs, op), c.Position(e.pos), touches == (e.memName != ""),
-					fmt.Sprintf("addresses memory: %v; memorySize: %q", touches, e.memName))
+	seen := map[string]bool{}
+	n := 0
+	for _, set := range tabs.order {
+		for op, e := range tabs.own[set] {
+			id := fmt.Sprint(e.execName, e.execArgs, e.memName)
+			if seen[id] {
+				continue
 			}
-		}
-		// helper functions taking big.Int operands
-		gd := c.Fn("core/vm:getDataBig")
-		f := c.Facts(gd)
-		for _, b := range gd.Blocks {
-			for _, ins := range b.Instrs {
-				name, call := bigMethod(valueOf(ins))
-				if call == nil || (name != "Uint64" && name != "Int64") {
-					continue
-				}
-				t := f.tr.term(nil, call.Call.Args[0], 0)
-				ok := strings.HasPrefix(t, "math.BigMin(") && strings.HasSuffix(t, "big.NewInt(len([]byte#0)))") || t == "Int#1"
-				c.Ob(rule, "getDataBig: conversion of "+t+" is clamped to the data length (or is the memory-sized length)", c.Position(call.Pos()), ok, "")
+			seen[id] = true
+			fn, _, _ := c.resolveVMFunc(e.execName, e.execArgs)
+			if fn == nil {
+				continue
 			}
-		}
-		c.Ob(rule, "getDataBig converts start, end and size", c.FnPos(gd), len(callSites(gd, `^Int\.Uint64$`)) == 3, "")
-		cm := c.Fn("core/vm:calcMemSize")
-		fcm := c.Facts(cm)
-		for _, rs := range fcm.AllReturns() {
-			t := fcm.tr.term(rs.State, rs.Ret.Results[0], 0)
-			ok := t == "common.Big0" && rs.State.lits["Int#1 == 0"] || t == "new(Int).Add(Int#0, Int#1)" && rs.State.lits["Int#1 != 0"]
-			c.Ob(rule, "calcMemSize: zero length needs no memory, otherwise offset+length", c.Position(rs.Ret.Pos()), ok, "returns "+t+" under "+strings.Join(guardLits(rs.State), "; "))
+			used := c07UnguardedPositions(c, fn)
+			sized := map[int]bool{}
+			if e.memName != "" {
+				if mf := c.FnOpt("core/vm:" + e.memName); mf != nil {
+					sized = c07BackPositions(mf)
+				}
+			}
+			var bad []string
+			for pos, where := range used {
+				if !sized[pos] {
+					bad = append(bad, fmt.Sprintf("stack[%d] (%s)", pos, where))
+				}
+			}
+			sort.Strings(bad)
+			if len(used) > 0 || e.memName != "" {
+				n++
+				c.Ob(rule, fmt.Sprintf("%s%v / %s (%s)", e.execName, e.execArgs, e.memName, op), c.Position(e.pos), len(bad) == 0,
+					fmt.Sprintf("unguarded conversions at stack positions %v; memorySize covers %v; uncovered: %v", keysInt(used), keysIntB(sized), bad))
+			}
+			// memorySize present iff the execute function addresses memory by offset
+			touches := c07TouchesMemory(fn)
+			c.Ob(rule, fmt.Sprintf("%s%v has memorySize iff it addresses memory (%s)", e.execName, e.execArgs, op), c.Position(e.pos), touches == (e.memName != ""),
+				fmt.Sprintf("addresses memory: %v; memorySize: %q", touches, e.memName))
 		}
 	}
+	// helper functions taking big.Int operands
+	gd := c.Fn("core/vm:getDataBig")
+	f := c.Facts(gd)
+	for _, b := range gd.Blocks {
+		for _, ins := range b.Instrs {
+			name, call := bigMethod(valueOf(ins))
+			if call == nil || (name != "Uint64" && name != "Int64") {
+				continue
+			}
+			t := f.tr.term(nil, call.Call.Args[0], 0)
+			ok := strings.HasPrefix(t, "math.BigMin(") && strings.HasSuffix(t, "big.NewInt(len([]byte#0)))") || t == "Int#1"
+			c.Ob(rule, "getDataBig: conversion of "+t+" is clamped to the data length (or is the memory-sized length)", c.Position(call.Pos()), ok, "")
+		}
+	}
+	c.Ob(rule, "getDataBig converts start, end and size", c.FnPos(gd), len(callSites(gd, `^Int\.Uint64$`)) == 3, "")
+	cm := c.Fn("core/vm:calcMemSize")
+	fcm := c.Facts(cm)
+	for _, rs := range fcm.AllReturns() {
+		t := fcm.tr.term(rs.State, rs.Ret.Results[0], 0)
+		ok := t == "common.Big0" && rs.State.lits["Int#1 == 0"] || t == "new(Int).Add(Int#0, Int#1)" && rs.State.lits["Int#1 != 0"]
+		c.Ob(rule, "calcMemSize: zero length needs no memory, otherwise offset+length", c.Position(rs.Ret.Pos()), ok, "returns "+t+" under "+strings.Join(guardLits(rs.State), "; "))
+	}
+}
